@@ -188,10 +188,21 @@ func signSpec() *edt.Spec {
 				return "the second half of the signature is not the encoding of S"
 			}
 			S := sOut.Args[0].Args[0]
-			if S.Op != "Scalar.Add" || len(S.Args) != 2 || S.Args[0].Op != "Scalar.Mul" || S.Args[1].String() != r.String() {
+			// operands of the commutative scalar operations are matched by role, not by position
+			if S.Op != "Scalar.Add" || len(S.Args) != 2 {
 				return "S is not k·a + r with the same r that produced R: " + clip(ab(S.String()), 200)
 			}
-			k, a := S.Args[0].Args[0], S.Args[0].Args[1]
+			prod, nonce := S.Args[0], S.Args[1]
+			if prod.Op != "Scalar.Mul" {
+				prod, nonce = nonce, prod
+			}
+			if prod.Op != "Scalar.Mul" || len(prod.Args) != 2 || nonce.String() != r.String() {
+				return "S is not k·a + r with the same r that produced R: " + clip(ab(S.String()), 200)
+			}
+			k, a := prod.Args[0], prod.Args[1]
+			if k.Op == "Scalar.SetBits" {
+				k, a = a, k
+			}
 			ka, msg := hashArgs(k, "the challenge k")
 			if msg != "" {
 				return msg
